@@ -198,7 +198,10 @@ def structural(run, n_cases, depth):
         cases.append((tree, beam, sub, obs))
         terms.append(coq_case(tree, beam, sub, obs))
     run.sample({"tree": cases[0][0], "beam": cases[0][1], "subcell": cases[0][2], "observed": cases[0][3]} if cases else {})
-    failing = common.run_shards(PID, "struct", PREAMBLE, terms, "c01_check")
+    # finding F28 (listed under C08): Segment.length of an EMPTY segment raised TypeError instead of being 0.  While it is listed
+    # as known the length of a tree with an empty (sub-)segment is modelled as "raises"; once it is fixed the length is total.
+    f28_known = any(f["id"] == "F28" and f.get("status") == "known" for f in common.load_known_findings("C08"))
+    failing = common.run_shards(PID, "struct", PREAMBLE, terms, "c01_check" if f28_known else "c01_check_len_total")
     run.cov["traces_validated_against_impl"] += len(cases)
     return cases, failing, impl_fail
 
@@ -412,6 +415,9 @@ def main(tier, replay=None):
     if replay:
         return do_replay(run, replay)
     proof_ok = run.proof_stage()
+    ok_aux, log_aux = common.coq_build("theories/Lattice/ZCheck.vo")     # used by the generated case files, not in the closure of the Props file
+    if not ok_aux:
+        proof_ok, run.proof_problem = False, "coq build of theories/Lattice/ZCheck.vo failed: " + log_aux[-800:]
     if not proof_ok:
         run.notes.append(run.proof_problem)
 
